@@ -13,6 +13,7 @@ import (
 
 	"verif/harness/core"
 	"verif/harness/env"
+	"verif/harness/sim"
 	"verif/harness/spsim"
 )
 
@@ -218,11 +219,105 @@ func init() {
 				wls = append(wls, core.Workload{Name: "random_length4", N: 100, Fn: c16Random})
 			}
 			wls = append(wls, core.Workload{Name: "end_to_end", N: c.Pick(600, 6000), Fn: c16EndToEnd})
+			wls = append(wls, core.Workload{Name: "registration_history", N: c.Pick(150, 1500), Fn: c16Registration})
+			r.Require("registration_history_requests", 1000)
 			wls = append(wls, core.Workload{Name: "concurrent_first_use", N: c.Pick(300, 1500), Fn: c16ConcurrentFirstUse})
 			r.Require("concurrent_first_requests", 20000)
 			return wls
 		},
 	})
+}
+
+// c16Registration: ONE provider while the registration of a service provider changes (new object, refreshed in place,
+// revoked, registered again, also while a lookup fails in between): the pair persisted for a request is one the rule
+// allows on the list registered AT THAT MOMENT, and nothing when nothing is registered.
+func c16Registration(r *core.Run, idx int, rng *rand.Rand) {
+	const wl = "registration_history"
+	e := env.Static(env.Opts{})
+	e.W.NilForUnknown = rng.Intn(2) == 0
+	d := stdSP(0)
+	d.AuthnRequestsSigned = ""
+	registered := false
+	newList := func() {
+		n := 1 + rng.Intn(4)
+		d.ACS = nil
+		for i := 0; i < n; i++ {
+			d.ACS = append(d.ACS, spsim.ACS{Binding: []string{spsim.BindPost, spsim.BindRedirect}[rng.Intn(2)], Location: fmt.Sprintf("https://sp0.example/acs/%d/%s", i, randHex(rng, 3)),
+				Index: []string{"0", "1", "2", "7", "65535"}[rng.Intn(5)], IsDefault: []string{"", "", "", "true", "false", "1", "0"}[rng.Intn(7)]})
+		}
+	}
+	for step := 0; step < 10; step++ {
+		what := "request"
+		switch op := rng.Intn(6); {
+		case op == 0 || !registered && op < 3:
+			newList()
+			if registered && rng.Intn(2) == 0 {
+				what = "refreshed_in_place"
+				if err := e.W.ReplaceMetadataInPlace(d.EntityID, d.XML()); err != nil {
+					panic(err)
+				}
+			} else {
+				what = "registered"
+				mustRegister(e.W, d, "appA")
+			}
+			registered = true
+		case op == 1 && registered:
+			what = "revoked"
+			e.W.RemoveSP(d.EntityID)
+			registered = false
+		case op == 2 && registered:
+			// a lookup fails (the request is refused); right after, the registration is replaced
+			what = "lookup_failed_then_replaced"
+			e.W.Plan = func(tag, o string, occ int) string {
+				if o == "GetEntityByID" {
+					return sim.FaultError
+				}
+				return ""
+			}
+			a := validAuthn(rng, d)
+			e.Do(env.Req{Path: env.PathSSO, Query: "SAMLRequest=" + url.QueryEscape(spsim.DeflateB64(a.XML(rng)))})
+			e.W.Plan = nil
+			newList()
+			mustRegister(e.W, d, "appA")
+		}
+		a := validAuthn(rng, d)
+		a.ACSURL, a.ACSIndex = "", ""
+		a.ProtocolBinding = []string{"", spsim.BindPost, spsim.BindRedirect, spsim.BindArtifact}[rng.Intn(4)]
+		call := e.Do(env.Req{Path: env.PathSSO, Query: "SAMLRequest=" + url.QueryEscape(spsim.DeflateB64(a.XML(rng)))})
+		r.Count("registration_history_requests", 1)
+		class := fmt.Sprintf("registration_history|after=%s|registered=%v", what, registered)
+		desc := map[string]any{"step": step, "registered_now": registered, "acs_now": d.ACS, "requested": a.ProtocolBinding}
+		if call.Panic != "" {
+			r.Violate(core.Violation{Clause: "panic", Class: class, Reason: call.Panic, Workload: wl, Index: idx, Case: desc, Observed: call.Describe()})
+			return
+		}
+		ev := call.First("CreateAuthRequest")
+		if !registered {
+			if ev != nil {
+				r.Violate(core.Violation{Clause: "end_to_end_selection", Class: class, Reason: fmt.Sprintf("CreateAuthRequest(%v) although no consumer service is registered for the requester at this moment", ev.Args), Workload: wl, Index: idx, Case: desc, Observed: call.Describe()})
+				return
+			}
+			continue
+		}
+		acc := refConsumerChoice(d.ACS, a.ProtocolBinding)
+		ok := false
+		if ev != nil && len(ev.Args) >= 2 {
+			for _, p := range acc {
+				if p >= 0 && ev.Args[0] == d.ACS[p].Location && ev.Args[1] == d.ACS[p].Binding {
+					ok = true
+				}
+			}
+		}
+		if !ok {
+			got := "nothing persisted"
+			if ev != nil {
+				got = fmt.Sprintf("CreateAuthRequest(%v)", ev.Args)
+			}
+			r.Violate(core.Violation{Clause: "end_to_end_selection", Class: class, Reason: fmt.Sprintf("%s; the list registered at this moment allows position(s) %v", got, acc), Workload: wl, Index: idx, Case: desc, Observed: call.Describe()})
+			return
+		}
+	}
+	r.Eval(fmt.Sprintf("registration_history|%d", idx))
 }
 
 // c16ConcurrentFirstUse: a freshly registered service provider gets its first requests all at once (whatever a
